@@ -23,7 +23,7 @@ import math
 
 import numpy as np
 
-from dst import kernel, seams, refmodel
+from dst import kernel, seams, refmodel, runner
 from dst.kernel import Sim, HarnessError, stream, canon, digest, H
 
 PROP = 'C11'
@@ -51,6 +51,26 @@ NOISES = [
     {'r_x': 0.6, 'r_y': 0.3, 'r_z': 0.1, 'deformation_name': 'XY'},
 ]
 RATES = [0.02, 0.1, 0.25, 0.5]
+# near-twins: channels that differ only in the deformation axis, or only in
+# the fifth decimal of the direction (whatever a cache might key on, they
+# are different channels)
+AXES = [{'deformation_axis': 'x'}, {'deformation_axis': 'y'}]
+
+
+def near_twin(rng, nz, cname):
+    nz = dict(nz)
+    if nz.get('deformation_name') == 'XZZX' and rng.random() < 0.7:
+        cur = nz.get('deformation_kwargs') or {}
+        other = [a for a in AXES if a != cur]
+        nz['deformation_kwargs'] = dict(rng.choice(other))
+        return nz
+    eps = 3e-5
+    keys = ['r_x', 'r_y', 'r_z']
+    big = max(keys, key=lambda k: nz[k])
+    other = rng.choice([k for k in keys if k != big])
+    nz[big] = nz[big] - eps
+    nz[other] = nz[other] + eps
+    return nz
 
 
 def build(code_spec, noise_spec, dec_spec, rate):
@@ -78,7 +98,11 @@ def gen_history(seed):
     noises = []
     for _ in range(rng.choice([1, 1, 2])):
         nz = dict(rng.choice(NOISES))
+        if nz.get('deformation_name') == 'XZZX' and rng.random() < 0.5:
+            nz['deformation_kwargs'] = dict(rng.choice(AXES))
         noises.append(nz)
+    if rng.random() < 0.35:
+        noises = noises[:1] + [near_twin(rng, noises[0], codes[0][0])]
     sims = []
     for _ in range(rng.choice([1, 2, 3, 4])):
         ci = rng.randrange(len(codes))
@@ -212,7 +236,7 @@ class HistoryExec:
         ledger = seams.Ledger(
             sim, trial_dt=lambda p: dt_rng.choice([0.001, 0.02, 0.3]),
             on_trial=self.on_trial)
-        seams.install_entropy()
+        seams.install_entropy(sim.seed)
         seams.install_clock(sim.clock)
         ledger.install()
         try:
@@ -440,7 +464,7 @@ def calibration(plan):
 
     proc = sim.new_proc('calib')
     kernel.set_current(proc)
-    seams.install_entropy()
+    seams.install_entropy(plan['seed'])
     n_eval = 0
     info = {}
     try:
@@ -581,6 +605,110 @@ def calibration(plan):
     }
 
 
+def calibration_seq(plan):
+    """Several noise models used one after the other in ONE simulated
+    process on ONE shared code object at one error rate (an axis scan, a
+    bias scan): the sampler of each must realise its own stated channel,
+    whatever was evaluated before it."""
+    sim = Sim(plan['seed'])
+    violations = []
+    proc = sim.new_proc('calib-seq')
+    kernel.set_current(proc)
+    seams.install_entropy(plan['seed'])
+    n_models = 0
+    try:
+        seams.clear_caches()
+        from panqec.config import CODES as C
+        from panqec.error_models import PauliErrorModel
+        code = C[plan['code'][0]](*plan['code'][1])
+        p = plan['rate']
+        n = code.n
+        models = [PauliErrorModel(**nz) for nz in plan['noises']]
+        order = plan.get('order') or list(range(len(models)))
+        for oi in order:
+            nz, noise = plan['noises'][oi], models[oi]
+            pieces, f = locate_map(code, noise, p)
+            meas = [{'I': 0.0, 'X': 0.0, 'Y': 0.0, 'Z': 0.0}
+                    for _ in range(n)]
+            for a, b, s_ in pieces:
+                for i in range(n):
+                    meas[i][s_[i]] += b - a
+            dname = nz.get('deformation_name')
+            dkw = nz.get('deformation_kwargs') or {}
+            defs = [code.get_deformation(q, dname, **dkw) if dname else None
+                    for q in code.qubit_coordinates]
+            ref_ch = refmodel.channel(p, (nz['r_x'], nz['r_y'], nz['r_z']),
+                                      defs)
+            n_models += 1
+            bad = None
+            for i in range(n):
+                for j, c in enumerate('IXYZ'):
+                    if abs(meas[i][c] - ref_ch[i][j]) > 1e-12:
+                        bad = {'qubit': i, 'pauli': c,
+                               'measured': meas[i][c],
+                               'stated': ref_ch[i][j],
+                               'model_index': oi,
+                               'position_in_sequence': order.index(oi),
+                               'noise': nz}
+                        break
+                if bad:
+                    break
+            # the table handed to decoders must be the same channel
+            if not bad:
+                pd = noise.probability_distribution(code, p)
+                for i in range(n):
+                    for j in range(4):
+                        if abs(float(pd[j][i]) - ref_ch[i][j]) > 1e-12:
+                            bad = {'qubit': i, 'table_entry': j,
+                                   'model_index': oi, 'via':
+                                   'probability_distribution', 'noise': nz}
+                            break
+                    if bad:
+                        break
+            if bad:
+                violations.append({
+                    'class': 'sampling_distribution_mismatch',
+                    'detail': bad})
+                break
+    except HarnessError:
+        raise
+    except Exception as e:
+        violations.append({'class': 'calibration_raised', 'detail': {
+            'exc': type(e).__name__, 'msg': str(e)[:200]}})
+    finally:
+        seams.uninstall_entropy()
+        kernel.set_current(None)
+    sim.log.add('calib-seq', 'result', [canon(violations), n_models])
+    return {
+        'violations': violations, 'fingerprint': sim.log.fingerprint(),
+        'states': [digest([plan['code'], plan['noises'], plan.get('order'),
+                           plan['rate']])],
+        'fault_counts': {},
+        'probes': {'calibration_sequence': 1,
+                   'models_calibrated_in_sequence': n_models},
+        'n_trials': 0, 'info': {'models': n_models},
+    }
+
+
+def gen_calibration_seq(seed):
+    rng = stream(seed, 'calseq')
+    code = list(rng.choice([c for c in CODES if c[0] != 'UnionFind']))
+    base = dict(rng.choice(NOISES))
+    if base.get('deformation_name') not in \
+            [None] + deformation_names(code[0]):
+        base = dict(NOISES[5])
+    if base.get('deformation_name') == 'XZZX':
+        base['deformation_kwargs'] = dict(rng.choice(AXES))
+    noises = [base]
+    for _ in range(rng.choice([1, 2, 3])):
+        noises.append(near_twin(rng, rng.choice(noises), code[0]))
+    order = list(range(len(noises)))
+    rng.shuffle(order)
+    return {'property': PROP, 'kind': 'calibration_seq', 'seed': seed,
+            'code': code, 'noises': noises, 'order': order,
+            'rate': rng.choice(RATES)}
+
+
 def binom_two_sided(k, n, p):
     """Exact two-sided binomial tail (sum of probabilities <= P(k))."""
     if p <= 0.0:
@@ -598,10 +726,17 @@ def binom_two_sided(k, n, p):
     return min(1.0, lo)
 
 
-def execute(plan, keep_events=False):
+def execute_here(plan, keep_events=False):
     if plan['kind'] == 'history':
         return HistoryExec(plan, keep_events).run()
+    if plan['kind'] == 'calibration_seq':
+        return calibration_seq(plan)
     return calibration(plan)
+
+
+def execute(plan, **kw):
+    """One plan = one simulated process image: run in a forked child."""
+    return runner.isolated(execute_here, plan, **kw)
 
 
 # ---------------------------------------------------------------------------
@@ -665,6 +800,9 @@ def absorb(summ, plan, o, seen):
     if plan['kind'] == 'history':
         summ['histories'] += 1
         summ['ops'] += len(plan['ops'])
+    elif plan['kind'] == 'calibration_seq':
+        summ['calibration_sequences'] = summ.get(
+            'calibration_sequences', 0) + 1
     else:
         summ['calibrations'] += 1
     for k, v in o['probes'].items():
@@ -677,6 +815,11 @@ def absorb(summ, plan, o, seen):
                 'kind': 'history', 'sims': plan['sims'],
                 'ops': [[o_['op'], o_.get('sim'), o_.get('k')]
                         for o_ in plan['ops']][:12]})
+        elif plan['kind'] == 'calibration_seq':
+            summ['samples'].append({
+                'kind': 'calibration_seq', 'code': plan['code'],
+                'noises': plan['noises'], 'order': plan['order'],
+                'rate': plan['rate']})
         else:
             summ['samples'].append({
                 'kind': 'calibration', 'code': plan['code'],
@@ -698,6 +841,10 @@ def make_jobs(tier, seed):
     for b in range(n // per):
         jobs.append({'plans': [gen_history(H(seed, PROP, 'h', b * per + i))
                                for i in range(per)]})
+    n_seq = 320 if tier == 'quick' else 6000
+    for b in range(n_seq // per):
+        jobs.append({'plans': [gen_calibration_seq(
+            H(seed, PROP, 'cs', b * per + i)) for i in range(per)]})
     return jobs
 
 
@@ -714,6 +861,8 @@ def new_aggregate():
 def aggregate(agg, r):
     for k in ('runs', 'trials', 'histories', 'calibrations', 'ops'):
         agg[k] += r[k]
+    agg['calibration_sequences'] = agg.get('calibration_sequences', 0) + \
+        r.get('calibration_sequences', 0)
     agg['violations'] += r['violations']
     agg['states'].update(r['states'])
     for k, v in r['probes'].items():
@@ -813,6 +962,8 @@ def evidence(tier, agg, wall):
         'histories': agg['histories'],
         'history_operations': agg['ops'],
         'calibration_configurations': agg['calibrations'],
+        'calibration_sequences_sharing_one_process': agg.get(
+            'calibration_sequences', 0),
         'trials_checked_against_reference': agg['trials'],
         'simulated_runs': agg['runs'],
         'simulated_runs_per_hour': int(agg['runs'] / max(wall, 1e-9) * 3600),
